@@ -104,6 +104,10 @@ def c_part(g, read, strip_comments):
     emit_str("c_iter_first_test", re.sub(r"\s+", " ", first_if.group(1).strip()) if first_if else "?", "BPlusTreeIterator_next: the first test")
     raises = re.search(r"PyErr_SetString\(\s*(\w+)", b)
     emit_str("c_iter_first_raises", raises.group(1) if raises else "?", "BPlusTreeIterator_next: what the first test raises")
+    emit_str("c_iter_next_src", re.sub(r"\s+", " ", b).strip() if b else "?", "BPlusTreeIterator_next: the whole body, comments stripped, whitespace normalised (the model's `iterNext` transcribes it)")
+    for nm in ("BPlusTree_iter", "BPlusTree_keys", "BPlusTree_items", "BPlusTreeIterator_dealloc"):
+        bb = c_fn(mod, nm)
+        emit_str("c_src_" + nm, re.sub(r"\s+", " ", bb).strip() if bb else "?", "%s: the whole body, comments stripped, whitespace normalised" % nm)
     # routing: lower bound then step right on equal
     b = c_fn(tree, "tree_find_leaf") or ""
     emit_bool("c_route_steps_right_on_equal", re.search(r"if\s*\(\s*eq\s*\)\s*\{\s*pos\+\+;", b) is not None, "tree_find_leaf advances past an equal separator")
